@@ -46,6 +46,7 @@ class Gen:
         self.dict_prims_with_defaults = False
         self.json_safe = False
         self._forced = None
+        self._reserved = None
 
     # ------------------------------------------------------------------ schemas (IR)
     def fresh(self, prefix):
@@ -60,7 +61,7 @@ class Gen:
             return n
         if self.use_ns and self.r.random() < 0.12:
             cands = [d["full"].rsplit(".", 1)[-1] for d in self.defs.values() if d["ns"] != tns]
-            cands = [s for s in cands if self.full(tns, s) not in self.defs and not s.startswith("Al")]
+            cands = [s for s in cands if self.full(tns, s) not in self.defs and not s.startswith("Al") and s != self._reserved]
             if cands:
                 return self.r.choice(cands)
         return self.fresh(prefix)
@@ -82,6 +83,7 @@ class Gen:
         self.defs = {}
         self.open = []
         self.counter = 0
+        self._reserved = None
         kinds = ["record"] * 5 + ["union", "array", "map", "enum", "fixed", "prim"]
         k = top or self.r.choice(kinds)
         if k == "record" and self.use_ns and self.r.random() < 0.05:
@@ -96,6 +98,7 @@ class Gen:
         r = self.r
         ns = r.choice([n for n in NS_POOL if n])
         simple = "N%d" % r.randint(1, 9)
+        self._reserved = simple          # nobody else takes this simple name
 
         def named(tns):
             self._forced = (tns, simple)
